@@ -28,15 +28,63 @@ EXPLANATION = (
 ORI = 'spatialpandas.geometry._algorithms.orientation'
 
 
-def _flip_table(P, R, op):
+def _loop_form(P, R, op):
+    """Scalar form of orient_polygons: a loop over polygons, inside it a loop over the rings first..last of that polygon; expected direction of ring r is
+    `r == first ring`.  Returns (ring loop, name of the expected flag, test guarding the flip) or None.  Also decides here: every ring of every polygon reaches
+    the decision (no break / return inside the ring loop)."""
+    for outer in [l for l in walk_own(op.node) if isinstance(l, ast.For)]:
+        for inner in [l for l in outer.body if isinstance(l, ast.For)]:
+            it = inner.iter
+            if not (isinstance(it, ast.Call) and norm(it.func) in ('range', 'prange') and len(it.args) == 2 and isinstance(inner.target, ast.Name)):
+                continue
+            lo, hi = [astq.expand(op, a) for a in it.args]
+            pv = outer.target.id if isinstance(outer.target, ast.Name) else None
+            if not (norm(lo) == f'{op.params[1]}[{pv}]' and norm(hi) == f'{op.params[1]}[{pv} + 1]'):
+                continue
+            rv = inner.target.id
+            flag = None
+            for a in inner.body:
+                if isinstance(a, ast.Assign) and isinstance(a.targets[0], ast.Name) and isinstance(a.value, ast.Compare) and isinstance(a.value.ops[0], ast.Eq):
+                    sides = {norm(astq.expand(op, a.value.left)), norm(astq.expand(op, a.value.comparators[0]))}
+                    if sides == {rv, norm(lo)}:
+                        flag = a.targets[0].id
+            guard = None
+            for st in ast.walk(inner):
+                if isinstance(st, ast.If) and any(isinstance(x, ast.Assign) and isinstance(x.targets[0], ast.Subscript) and isinstance(x.targets[0].slice, ast.Slice)
+                                                  and norm(x.targets[0].value) == op.params[0] for x in ast.walk(st)):
+                    guard = st
+                    break
+            if flag is None or guard is None:
+                continue
+            R.ok('C15.c', op, inner, 'the shell of each polygon is its first ring: ring r is expected counter-clockwise iff r is the first ring of its polygon')
+            exits = [x for x in ast.walk(inner) if isinstance(x, (ast.Break, ast.Return))]
+            R.check(not exits, 'C15.c', op, exits[0] if exits else inner, 'every ring of every polygon reaches the flip decision',
+                    'the loop over the rings of a polygon can be left early (`break` / `return`): the remaining rings of that polygon (its holes) are never examined and keep their direction',
+                    construct='all rings examined')
+            return (inner, flag, guard)
+    return None
+
+
+def _flip_table(P, R, op, loop_form=None):
     nz = [c for c in astq.own_calls(op) if norm(c.func).split('.')[-1] in ('nonzero', 'flatnonzero', 'where') and c.args]
-    if not nz:
+    if not nz and loop_form is None:
         R.abstain('C15.f', op, None, 'flip selection (np.nonzero(<decision>)) not recognised', construct='flip decision table')
         return
-    decision = nz[0].args[0]
-    exp_name = None
+    decision = nz[0].args[0] if nz else loop_form[2].test
+    exp_name = loop_form[1] if (loop_form is not None and not nz) else None
+    skip_tests = []
+    if loop_form is not None and not nz:
+        # `if <t>: continue` before the decision: this ring is not flipped when t holds
+        for st in loop_form[0].body:
+            if st is loop_form[2]:
+                break
+            if isinstance(st, ast.If) and any(isinstance(x, ast.Continue) for x in st.body):
+                skip_tests.append(st.test)
+    if skip_tests:
+        decision = ast.BoolOp(op=ast.And(), values=[ast.UnaryOp(op=ast.Not(), operand=t) for t in skip_tests] + [decision])
+        ast.fix_missing_locations(decision)
     for s_ in walk_own(op.node):
-        if isinstance(s_, ast.Assign) and isinstance(s_.targets[0], ast.Subscript) and norm(s_.value) == 'True' and isinstance(s_.targets[0].value, ast.Name):
+        if exp_name is None and isinstance(s_, ast.Assign) and isinstance(s_.targets[0], ast.Subscript) and norm(s_.value) == 'True' and isinstance(s_.targets[0].value, ast.Name):
             exp_name = s_.targets[0].value.id
     NAN = float('nan')
 
@@ -247,7 +295,11 @@ def run(P, R, tier):
     geom.stats(R, I)
     # shell marker = start view of polygon offsets
     marks = [s for s in walk_own(op.node) if isinstance(s, ast.Assign) and isinstance(s.targets[0], ast.Subscript) and norm(s.value) == 'True']
-    R.floor('C15.c', 'shell marker stores in orient_polygons', len(marks), 1)
+    loop_form = None
+    if not marks:
+        loop_form = _loop_form(P, R, op)
+        if loop_form is None:
+            R.floor('C15.c', 'shell marker stores in orient_polygons', len(marks), 1)
     def _start_view(e):
         if isinstance(e, ast.Name):
             t_ = astq.trace(op, e)
@@ -299,7 +351,7 @@ def run(P, R, tier):
     # C15.f: the flip decision over the sign of the ring's area (finite table).  sign in {-, 0, +}, expected in {ccw, cw}:
     #   sign != 0: flip  <=>  (sign > 0) != expected_ccw      (every ring with area ends up in its expected direction)
     #   sign == 0: never flip                                   (no orientation to correct; flipping it again on every call breaks idempotence)
-    _flip_table(P, R, op)
+    _flip_table(P, R, op, loop_form)
     # flips: both strides over the same range, reversed
     flips = [s for s in ast.walk(op.node) if isinstance(s, ast.Assign) and isinstance(s.targets[0], ast.Subscript) and isinstance(s.targets[0].slice, ast.Slice)
              and s.targets[0].slice.step is not None and norm(s.targets[0].slice.step) == '2' and norm(s.targets[0].value) == op.params[0]]
